@@ -150,6 +150,11 @@ class NamedObject:
       # both NamedObject and list cases. Now I basically avoid the stack overheads
       # for common cases.
       if isinstance( obj, NamedObject ):
+        # `s.x.y.z //= w` re-assigns the very same object to field z of the
+        # signal s.x.y. Nested field signals are created on demand and carry
+        # no elaboration metadata of their own, so don't look at it.
+        if s.__dict__.get( name ) is obj:
+          return
         fields = sd.NamedObject_fields
         if name in fields:
           if getattr( s, name ) is obj:
